@@ -36,7 +36,7 @@ psutil_ethtool_cmd_speed(const struct ethtool_cmd *ecmd) {
 #if LINUX_VERSION_CODE < KERNEL_VERSION(2, 6, 27)
     return ecmd->speed;
 #else
-    return (ecmd->speed_hi << 16) | ecmd->speed;
+    return ((uint32_t)ecmd->speed_hi << 16) | ecmd->speed;
 #endif
 }
 
